@@ -30,6 +30,9 @@ pub enum Answer {
     Mute,
     /// SYNACK, then every later data frame of a stream is sent back on it (an echoing origin)
     Echo,
+    /// SYNACK; then the server stops reading for 600 ms (the client's transport congests) and meanwhile, at 100 / 150 /
+    /// 200 ms, sends three data frames on the stream; then it reads (and logs) everything
+    SlowTalker,
 }
 
 /// A dialled in-memory transport whose writes can be made to fail from a given call on (a broken connection).
@@ -122,7 +125,7 @@ impl CWorld {
                 rd.fetch_sub(1, SeqCst);
                 return Some(Err(std::io::Error::new(std::io::ErrorKind::ConnectionRefused, "connection refused (scripted)")));
             }
-            let (a, b) = tokio::io::duplex(1 << 20);
+            let (a, b) = tokio::io::duplex(if answer == Answer::SlowTalker { 16 << 10 } else { 1 << 20 });
             if dh.load(SeqCst) > 0 {
                 dh.fetch_sub(1, SeqCst);
                 // accepted and dropped 2 ms later: the client's TLS handshake sees the end of the transport
@@ -226,6 +229,16 @@ async fn serve(io: tokio::io::DuplexStream, log: Arc<Mutex<ConnLog>>, answer: An
                 }
                 PSH if !answered.contains(&f.id) => {
                     answered.push(f.id);
+                    if answer == Answer::SlowTalker {
+                        let _ = s.write_all(&enc(SYNACK, f.id, b"")).await;
+                        let _ = s.flush().await;
+                        for k in 0..3u8 {
+                            tokio::time::sleep(Duration::from_millis(if k == 0 { 100 } else { 50 })).await;
+                            let _ = s.write_all(&enc(PSH, f.id, &[b'T'; 600])).await;
+                            let _ = s.flush().await;
+                        }
+                        tokio::time::sleep(Duration::from_millis(400)).await;
+                    }
                     if answer == Answer::Ok || answer == Answer::Echo {
                         // destinations with port 9 are "refused by the target": the verdict carries a reason
                         let refused = f.data.len() >= 2 && f.data[f.data.len() - 2..] == REFUSED_PORT.to_be_bytes();
@@ -443,5 +456,112 @@ pub fn front_end_fault_pass(rep: &mut crate::report::Report, prop: &str, front: 
     }
     if n < 5 {
         rep.machinery(format!("front-end fault pass ({front} {mode}) ran only {n} cases"));
+    }
+}
+
+
+/// A local application that ENDS ABRUPTLY, on the real SOCKS5 / HTTP CONNECT front-end over the in-memory seam: of two
+/// applications sharing a session, one RESETS its connection (SO_LINGER 0): the other's tunnel keeps working.
+/// (A first version also demanded that 200 000 bytes sent before a full close reach a congested target while the target
+/// talks: the front-end's write to the closed application draws a RST, and the kernel then discards what the front-end
+/// has not read yet — the unchanged HTTP front-end "lost" 73 024 bytes that way. That loss is TCP's, not the proxy's;
+/// the case was removed, see DESIGN 0.4.)
+pub fn front_end_app_abort_pass(rep: &mut crate::report::Report, front: &'static str, key_sibling: &str) {
+    use tokio::net::TcpStream;
+    async fn open(front: &str, addr: std::net::SocketAddr) -> Option<TcpStream> {
+        let mut s = TcpStream::connect(addr).await.ok()?;
+        let _ = s.set_nodelay(true);
+        if front == "socks5" {
+            s.write_all(&[5, 1, 0]).await.ok()?;
+            let mut m = [0u8; 2];
+            tokio::time::timeout(Duration::from_secs(3), s.read_exact(&mut m)).await.ok()?.ok()?;
+            let mut req = vec![5u8, 1, 0, 3, 11];
+            req.extend_from_slice(b"example.com");
+            req.extend_from_slice(&80u16.to_be_bytes());
+            s.write_all(&req).await.ok()?;
+            let mut r = [0u8; 10];
+            tokio::time::timeout(Duration::from_secs(5), s.read_exact(&mut r)).await.ok()?.ok()?;
+            if r[1] != 0 {
+                return None;
+            }
+        } else {
+            s.write_all(b"CONNECT example.com:80 HTTP/1.1\r\nHost: example.com:80\r\n\r\n").await.ok()?;
+            let mut acc = vec![];
+            let mut b = [0u8; 1];
+            while !acc.ends_with(b"\r\n\r\n") {
+                tokio::time::timeout(Duration::from_secs(5), s.read_exact(&mut b)).await.ok()?.ok()?;
+                acc.push(b[0]);
+            }
+            if !acc.starts_with(b"HTTP/1.1 200") {
+                return None;
+            }
+        }
+        Some(s)
+    }
+    let rt = tokio::runtime::Builder::new_current_thread().enable_all().build().unwrap();
+    let start = |answer: Answer| {
+        let w = CWorld::start(crate::sess::padding(crate::sess::STOP0), quiet_pool(1), answer);
+        let probe = std::net::TcpListener::bind("127.0.0.1:0").expect("bind");
+        let addr = probe.local_addr().unwrap();
+        drop(probe);
+        let c = w.client.clone();
+        let server = tokio::spawn(async move {
+            if front == "socks5" {
+                let _ = anytls_rs::client::start_socks5_server(&addr.to_string(), c).await;
+            } else {
+                let _ = anytls_rs::client::start_http_proxy_server(&addr.to_string(), c).await;
+            }
+        });
+        (w, addr, server)
+    };
+    let res: Vec<(String, Option<(String, String)>)> = rt.block_on(async {
+        let mut out = vec![];
+        // (2) one of two applications resets its connection
+        {
+            let name = format!("{front}: two applications share a session, one resets its connection (SO_LINGER 0)");
+            let (w, addr, server) = start(Answer::Echo);
+            tokio::time::sleep(Duration::from_millis(20)).await;
+            let a = open(front, addr).await;
+            let b = open(front, addr).await;
+            let v = match (a, b) {
+                (Some(mut a), Some(mut b)) => {
+                    let _ = b.write_all(b"from-b").await;
+                    let mut e = [0u8; 6];
+                    let _ = tokio::time::timeout(Duration::from_secs(2), b.read_exact(&mut e)).await;
+                    let _ = b.set_linger(Some(Duration::ZERO));
+                    drop(b);
+                    tokio::time::sleep(Duration::from_millis(150)).await;
+                    let _ = a.write_all(b"a-after-b-reset").await;
+                    let mut back = [0u8; 15];
+                    match tokio::time::timeout(Duration::from_secs(3), a.read_exact(&mut back)).await {
+                        Ok(Ok(_)) if &back == b"a-after-b-reset" => None,
+                        other => {
+                            let what = match other {
+                                Err(_) => "nothing came back within 3 s".to_string(),
+                                Ok(Err(e)) => format!("read error: {e}"),
+                                Ok(Ok(_)) => format!("wrong bytes: {:?}", String::from_utf8_lossy(&back)),
+                            };
+                            Some((key_sibling.to_string(), format!("after application B reset its connection, application A's tunnel (same client, {} dialled connection(s)) no longer echoes: {what}", w.dials())))
+                        }
+                    }
+                }
+                _ => Some(("harness".to_string(), "tunnels could not be opened".to_string())),
+            };
+            server.abort();
+            w.client.stop_session_pool_cleanup().await;
+            drop(w);
+            out.push((name, v));
+        }
+        out
+    });
+    for (name, v) in res {
+        rep.case(Some(&name));
+        if let Some((k, d)) = v {
+            if k == "harness" {
+                rep.machinery(format!("{name}: {d}"));
+            } else {
+                rep.violation(&k, &format!("{name}: {d}"), serde_json::json!({"engine": "LX-abort", "case": name}));
+            }
+        }
     }
 }
